@@ -2,7 +2,7 @@
    state in their result type: "never modify state" is a typing fact of the model (tied to the code by
    the unqueried-node comparison of the harness). *)
 From stdpp Require Import gmap.
-Require Import Model.Base Model.State Model.Staking Model.Slashing Model.Poa Model.App proofs.L1More proofs.InvHistory proofs.InvComet.
+Require Import Model.Base Model.State Model.Staking Model.Slashing Model.Poa Model.App proofs.L1More proofs.InvHistory proofs.InvComet proofs.InvElig proofs.InvAbsent.
 
 Theorem C18_power_query_existing : forall c val v,
   0 <= val -> vals (stk c) !! val = Some v -> query_power c val = Some (default 0 (last_pow (stk c) !! val)).
@@ -36,4 +36,16 @@ Proof.
     apply Hrel in Ek as (id & v' & Hv' & Hc & Hl).
     destruct (run_world_WI bs (init_world g) (init_world_WI g Hg)) as [[HS _] _]. fold w in HS.
     assert (id = val) by (eapply (InvPres.si_cons _ HS); eauto). subst id. congruence.
+Qed.
+
+(* ... and it is 0 for every validator the chain reports as jailed, unbonding or unbonded (removed, displaced, waiting): such a
+   validator has no seat (C02_not_bonded_or_jailed_has_no_seat) *)
+Theorem C18_power_query_zero_for_jailed_or_not_bonded : forall g bs val v,
+  wf_genesis g ->
+  let w := run_world (init_world g) bs in
+  w_halted w = None -> 0 <= val -> vals (stk (w_chain w)) !! val = Some v -> (v_status v <> Bonded \/ v_jailed v = true) ->
+  query_power (w_chain w) val = Some 0.
+Proof.
+  intros g bs val v Hg w Hh Hval Hv Hor. pose proof (C18_power_query_is_comet_power g bs val v Hg Hh Hval Hv) as H1.
+  pose proof (not_bonded_or_jailed_has_no_seat g bs val v Hg Hh Hv Hor) as H2. cbv zeta in H1, H2. subst w. rewrite H1, H2. reflexivity.
 Qed.
